@@ -213,6 +213,13 @@ Definition set_stim (e : env) (s : list stimulus) (c : N) : env :=
      q_backoff := q_backoff e; e_stim := s; e_ctl := c;
      e_draws := e_draws e; e_guids := e_guids e; e_nonces := e_nonces e; e_trace := e_trace e |}.
 
+Definition pop_stim : M stimulus := fun e =>
+  match e_stim e with
+  | [] => (None, e)                        (* nothing left to drive the machine: the stream is dropped *)
+  | s :: r => (Some s, set_stim e r (e_ctl e))
+  end.
+Definition next_ctl : M N := fun e => (Some (e_ctl e), set_stim e (e_stim e) (e_ctl e + 1)%N).
+
 (* --- GUIDs and nonces --- *)
 Definition set_ids (e : env) (d : N) (g : list (N * N)) (n : N) : env :=
   {| e_clock := e_clock e; e_last_clock := e_last_clock e; e_store := e_store e; e_faults := e_faults e;
